@@ -284,6 +284,7 @@ const LADDERS: &[&str] = &[
     "nest-symbol", "nest-loop", "nest-if", "nest-specs", "siblings-rect", "siblings-text-content", "siblings-g", "attr-count", "attr-value-length", "text-length", "text-lines", "path-segments",
     "path-after-closepath", "points-length", "transform-list", "reuse-chain", "use-chain", "var-chain-reverse", "prev-chain", "forward-ref-chain", "forward-ref-nested-groups", "loop-nest",
     "loop-count", "for-list", "var-growth", "defaults-count", "comment-length", "cdata-length", "entity-count", "class-count", "surround-list", "connector-count", "deep-unclosed", "many-roots",
+    "var-paren-indirection", "clip-chain", "var-doubling-groups", "var-doubling-reuse", "var-sum-tree",
 ];
 
 fn rungs(tier: Tier) -> Vec<u64> {
@@ -393,6 +394,42 @@ fn ladder_doc(family: &str, n: u64) -> Option<(String, u64)> {
             (s, n + 2)
         }
         "deep-unclosed" => (rep("<g>", n_us), n),
+        // n variables written in reverse order, each wrapping the previous one in 62 parentheses
+        "var-paren-indirection" => {
+            let k = n_us.min(64);
+            let mut s = String::new();
+            for i in (1..=k).rev() {
+                s.push_str(&format!("<var v{i}=\"{}$v{}{}\"/>", "(".repeat(62), i - 1, ")".repeat(62)));
+            }
+            s.push_str(&format!("<var v0=\"1\"/><rect wh=\"{{{{$v{k}}}}}\"/>"));
+            (s, k as u64 + 2)
+        }
+        // n clip paths each clipped by the previous one
+        "clip-chain" => {
+            let mut s = String::from("<svg><clipPath id=\"c0\"><rect wh=\"10\"/></clipPath>");
+            for i in 1..=n_us {
+                s.push_str(&format!("<clipPath id=\"c{i}\" clip-path=\"url(#c{})\"><rect wh=\"10\"/></clipPath>", i - 1));
+            }
+            s.push_str(&format!("<rect wh=\"20\" clip-path=\"url(#c{n_us})\"/></svg>"));
+            (s, 2 * n + 2)
+        }
+        // a local variable doubling at every level of nested groups / of a recursive reuse
+        "var-doubling-groups" => {
+            let k = n_us.min(90);
+            (format!("<svg><g a=\"xx\">{}<rect wh=\"1\"/>{}</g></svg>", rep("<g a=\"$a$a\">", k), rep("</g>", k)), k as u64 + 2)
+        }
+        "var-doubling-reuse" => (format!("<svg><specs><g id=\"a\"><rect wh=\"1\"/><reuse href=\"#a\" s=\"$s$s\"/></g></specs><reuse href=\"#a\" s=\"{}\"/></svg>", "x".repeat(n_us.min(1000))), 110),
+        // n variables in reverse order, each the sum of the previous one with itself
+        "var-sum-tree" => {
+            // (the nesting limit of expressions stops this at about 31 levels; 28 levels are 2^28 additions)
+            let k = n_us.min(28);
+            let mut s = String::new();
+            for i in (1..=k).rev() {
+                s.push_str(&format!("<var v{i}=\"$v{} + $v{}\"/>", i - 1, i - 1));
+            }
+            s.push_str(&format!("<var v0=\"1\"/><rect wh=\"{{{{$v{k}}}}}\"/>"));
+            (s, k as u64 + 2)
+        }
         "many-roots" => (rep("<svg><rect wh=\"1\"/></svg>", n_us), 2 * n),
         _ => return None,
     })
@@ -737,7 +774,7 @@ fn frontend_docs() -> Vec<(String, Vec<u8>)> {
     ];
     for (f, n) in [("expr-parens", 20000u64), ("expr-unary-minus", 20000), ("nest-g", 5000), ("path-after-closepath", 64), ("expr-nested-calls", 5000), ("deep-unclosed", 50000), ("text-lines", 4096), ("var-chain-reverse", 2000), ("reuse-chain", 500), ("loop-nest", 40),
         // every nesting construct just beyond the default depth limit: the server answers from a 2 MiB thread stack
-        ("nest-a", 150), ("nest-defs", 150), ("nest-svg", 150), ("nest-text-tspan", 150), ("nest-symbol", 150), ("nest-loop", 150), ("nest-if", 150), ("nest-specs", 150), ("nest-g", 150), ("use-chain", 150), ("reuse-chain", 150), ("forward-ref-nested-groups", 90)] {
+        ("nest-a", 150), ("nest-defs", 150), ("nest-svg", 150), ("nest-text-tspan", 150), ("nest-symbol", 150), ("nest-loop", 150), ("nest-if", 150), ("nest-specs", 150), ("nest-g", 150), ("use-chain", 150), ("reuse-chain", 150), ("forward-ref-nested-groups", 90), ("var-paren-indirection", 3), ("var-paren-indirection", 16), ("clip-chain", 900), ("var-doubling-groups", 40), ("var-doubling-reuse", 2)] {
         if let Some((d, _)) = ladder_doc(f, n) {
             v.push((format!("ladder-{f}-{n}"), d.into_bytes()));
         }
